@@ -1,3 +1,4 @@
+import PcfgVerif.Lemmas.DetectWebsiteSpec
 import PcfgVerif.Model.Scorer
 import PcfgVerif.Generated.CliOptions
 import PcfgVerif.Properties.C03
@@ -125,6 +126,28 @@ theorem C13_tools_share_the_rules_folder :
     (["trainer.py", "pcfg_guesser.py", "edit_rules.py", "prince_ling.py", "password_scorer.py"].all
       fun p => Generated.CliOptions.rulesDirRoots.any (·.1 == p)) = true ∧
     ∀ a ∈ Generated.CliOptions.rulesDirRoots, ∀ b ∈ Generated.CliOptions.rulesDirRoots, a.2 = b.2 := by
+  decide
+
+/-- **which occurrence of a top-level domain makes a string a website** (the search loop of `detect_website`, for every string, every
+character classification and every domain of the source's table): the position the search returns is an occurrence of the domain that
+ends a host name - it ends the string, or what follows is neither a letter nor a dot - and no occurrence further left does.  It is the
+*first* such occurrence from the left: letters that merely look like the domain earlier in the string (`www.community.com`) are passed
+over, and the same letters turning up again later as the start of a longer word (`site.com-my.company`) change nothing -/
+theorem C13_website_first_host_end (U : Detect.UEnv) (w tld : CPs) (hm : tld ∈ Generated.Tables.tldList) (total : Nat)
+    (h : Detect.tldOccurrence U w tld (w.length + 1) (Detect.findSub w tld) = some total) :
+    Detect.OccursAt w tld total ∧ Detect.endsHost U w tld total = true ∧
+      ∀ k, k < total → Detect.OccursAt w tld k → Detect.endsHost U w tld k = false :=
+  Detect.tldSearch_first_host_end U w tld hm total h
+
+/-- the two shapes named above, run through the model with ASCII letters: `.com` of `www.community.com` is found at 13 (not at 3),
+`.com` of `site.com-my.company` at 4 (not at 11) -/
+example :
+    let U : Detect.UEnv := ⟨fun c => (97 ≤ c && c ≤ 122) || (65 ≤ c && c ≤ 90), fun c => 48 ≤ c && c ≤ 57, fun c => 65 ≤ c && c ≤ 90, id, id⟩
+    let tld := ".com".toList.map Char.toNat
+    let w1 := "www.community.com".toList.map Char.toNat
+    let w2 := "site.com-my.company".toList.map Char.toNat
+    Detect.tldOccurrence U w1 tld (w1.length + 1) (Detect.findSub w1 tld) = some 13 ∧
+    Detect.tldOccurrence U w2 tld (w2.length + 1) (Detect.findSub w2 tld) = some 4 := by
   decide
 
 end Pcfg.C13
